@@ -380,6 +380,34 @@ fn duration_values() -> Vec<Yaml> {
     ["s", "1x", "5 m", "99999999999999999999d", "1w2d3h4m5s", "18446744073709551615", "307445734561825861m", "1_0s", "ms", "5w5w5w5w5w5w5w5w5w5w5w5w5w5w5w5w5w", "-5s", "0"].iter().map(|s| Yaml::String(s.to_string())).collect()
 }
 
+/// Name- and text-shaped values at the limits of what the wire formats can carry (a DNS label holds
+/// at most 63 octets, a name 255, a DHCP option 255, a DNSSL/RDNSS option 8*255).
+fn name_values() -> Vec<Yaml> {
+    let l63 = "a".repeat(63);
+    let l64 = "b".repeat(64);
+    let l255 = "c".repeat(255);
+    vec![
+        format!("{l63}.example"),
+        format!("{l64}.example"),
+        format!("{l255}.example"),
+        format!("{l63}.{l63}.{l63}.{}", "d".repeat(61)),
+        format!("{l63}.{l63}.{l63}.{l63}.example"),
+        "e".repeat(300),
+        "f".repeat(2100),
+        "a..b".into(),
+        ".".into(),
+        ".example".into(),
+        "example.".into(),
+        "ex ample.test".into(),
+        "\u{e9}\u{e9}.example".into(),
+        "*.example".into(),
+        (0..130).map(|i| format!("l{i}")).collect::<Vec<_>>().join("."),
+    ]
+    .into_iter()
+    .map(Yaml::String)
+    .collect()
+}
+
 /// all paths to nodes (as index sequences); a path step is (is_hash_key?, index)
 fn paths(y: &Yaml, cur: &mut Vec<usize>, out: &mut Vec<Vec<usize>>) {
     out.push(cur.clone());
@@ -496,6 +524,7 @@ fn structural_texts(name: &str, text: &str, thorough: bool) -> Vec<(String, Stri
     let mut out: Vec<(String, String)> = vec![];
     let subs = subst_values();
     let durs = duration_values();
+    let names = name_values();
     for p in &ps {
         let kp = key_path_text(doc, p);
         let node = get(doc, p);
@@ -506,6 +535,9 @@ fn structural_texts(name: &str, text: &str, thorough: bool) -> Vec<(String, Stri
         if is_scalar {
             for (i, s) in durs.iter().enumerate() {
                 out.push((format!("{name}:{kp}<-dur{i}"), emit(&replace(doc, p, s))));
+            }
+            for (i, s) in names.iter().enumerate() {
+                out.push((format!("{name}:{kp}<-name{i}"), emit(&replace(doc, p, s))));
             }
             if let Yaml::String(s) = node {
                 out.push((format!("{name}:{kp}<-misspelt"), emit(&replace(doc, p, &Yaml::String(format!("{s}x"))))));
@@ -798,7 +830,7 @@ pub fn run(tier: &str, replay: Option<Value>) -> ! {
     crate::common::clock::unset();
     rep.cov("evaluations", tally.loads.load(Ordering::Relaxed));
     rep.cov("distinct_nontrivial", tally.accepted.load(Ordering::Relaxed));
-    rep.cov("rule", "texts = shipped examples (man page .EX blocks, erbium.conf.example commented and uncommented) and a skeleton naming every remaining key and DHCP option type; structural sweep: every node <- 21 wrong-type/boundary values, every scalar <- 12 duration shapes, misspelt/upper-cased, every prefix-shaped scalar <- every length (quick: 0..34 and boundaries; thorough 0..255) x 9 address forms (network, host bits set, zero, v4-mapped, top of the IPv4 / IPv6 space), every entry removed / key misspelt, every PAIR of duration-valued scalars set to each of 5 huge values at once; byte sweep: every offset x {deletion, 17 structural octets}. Every accepted text is served (ACL decisions, RA build+serialise per interface, DISCOVER+REQUEST from 4 receiving addresses x 3 clients; route variants through the live DNS service). distinct_nontrivial = texts the loader accepted (and that were therefore served)");
+    rep.cov("rule", "texts = shipped examples (man page .EX blocks, erbium.conf.example commented and uncommented) and a skeleton naming every remaining key and DHCP option type; structural sweep: every node <- 21 wrong-type/boundary values, every scalar <- 12 duration shapes and 15 name/text shapes at the wire limits (labels of 63/64/255 octets, names of 255 and more, empty labels, 130 labels, 300 and 2100 octets), misspelt/upper-cased, every prefix-shaped scalar <- every length (quick: 0..34 and boundaries; thorough 0..255) x 9 address forms (network, host bits set, zero, v4-mapped, top of the IPv4 / IPv6 space), every entry removed / key misspelt, every PAIR of duration-valued scalars set to each of 5 huge values at once; byte sweep: every offset x {deletion, 17 structural octets}. Every accepted text is served (ACL decisions, RA build+serialise per interface, DISCOVER+REQUEST from 4 receiving addresses x 3 clients; route variants through the live DNS service). distinct_nontrivial = texts the loader accepted (and that were therefore served)");
     rep.cov("exhaustive", true);
     rep.cov("parts", json!({"structural_texts": n_struct, "byte_texts": n_bytes, "accepted_and_served": tally.accepted.load(Ordering::Relaxed), "serve_steps": tally.served.load(Ordering::Relaxed), "own_network_namespace": isolated, "route_variants_distinct": n_dns, "route_tables_served_live": dt.tables, "route_texts_not_loadable_standalone": dt.not_loadable, "live_queries": dt.queries, "live_answered": dt.answered, "live_closed_without_answer": dt.closed, "live_silent_after_160s": dt.silent}));
     rep.cov("outcome_classes", json!(classes));
